@@ -226,3 +226,26 @@ theorem c02_binrw_FileInfo (l : Bytes) :
   BinrwTie.Dat.readFileInfo_eq_generated l
 
 end Physis.C02
+
+/-! ### T4 (continued): `ModelFileBlock` and the instantiations of the generic `ModelMemorySizes<T>` -/
+namespace Physis.C02
+open Physis.Binrw Physis.Generated
+
+theorem c02_binrw_ModelMemorySizes_u32 (l : Bytes) :
+    Dat.readMMS Reader.u32le l =
+      via BinrwTie.Dat.mms32Of (Layout.read BinrwTie.Dat.endian BinrwDat.modelMemorySizes_u32 l) :=
+  BinrwTie.Dat.readMMS32_eq_generated l
+
+theorem c02_binrw_ModelMemorySizes_u16 (l : Bytes) :
+    Dat.readMMS Reader.u16le l =
+      via BinrwTie.Dat.mms16Of (Layout.read BinrwTie.Dat.endian BinrwDat.modelMemorySizes_u16 l) :=
+  BinrwTie.Dat.readMMS16_eq_generated l
+
+/-- the whole `ModelFileBlock` (63 primitive reads, `pad_after = 1`); the two
+`map = read_bool_from::<u8>` closures are applied by the projection -/
+theorem c02_binrw_ModelFileBlock (l : Bytes) :
+    Dat.readModelFileBlock l =
+      via BinrwTie.Dat.modelFileBlockOf (Layout.read BinrwTie.Dat.endian BinrwDat.modelFileBlock l) :=
+  BinrwTie.Dat.readModelFileBlock_eq_generated l
+
+end Physis.C02
